@@ -71,7 +71,7 @@ def lean_ty(t):
             return "(" + " → ".join([lean_ty(a) for a in t[1]] + [res]) + ")"
     return {"int": "Int", "bool": "Bool", "str": "Str", "bytes": "(List Nat)", "row": "Row", "frag": "Fragment", "gap": "Gap",
             "ovres": "OverlapResult", "scaffold": "Scaffold", "bytesio": "PyRt.BytesIO", "unit": "Unit", "sink_str": "Str",
-            "sink_bytes": "(List Nat)", "nat": "Nat", "trtable": "(Char → Char)", "fastainfo": "FastaInfo", "ovref": "Nat", "premise": "Premise", "store": "(List Res)", "scref": "Nat", "ffref": "Nat", "found": "Found", "namer": "PyRt.SrcNamer", "lref": "Nat", "junction": "Junction", "assembly": "Assembly", "path": "Str", "fh": "Str"}[t]
+            "sink_bytes": "(List Nat)", "nat": "Nat", "trtable": "(Char → Char)", "fastainfo": "FastaInfo", "ovref": "Nat", "premise": "Premise", "store": "(List Res)", "scref": "Nat", "ffref": "Nat", "found": "Found", "namer": "PyRt.SrcNamer", "lref": "Nat", "junction": "Junction", "assembly": "Assembly", "path": "Str", "fh": "Str", "bref": "PyRt.BuiltRef", "bsref": "Nat"}[t]
 
 
 # OBJECT TABLE: (type, python attribute) -> (result type, lean template, may raise)
@@ -95,6 +95,8 @@ ATTR = {
     ("ovres", "start_row_bait_overlap"): ("int", "{0}.startRowBaitOverlap", True),
     ("ovres", "end_row_bait_overlap"): ("int", "{0}.endRowBaitOverlap", True),
     ("scaffold", "rows"): (L("row"), "{0}.rows", False), ("scaffold", "name"): ("str", "{0}.name", False),
+    ("scaffold", "tag"): (O("str"), "{0}.tag", False), ("scaffold", "haplotype"): (O("str"), "{0}.haplotype", False), ("scaffold", "rank"): ("int", "{0}.rank", False),
+    ("scaffold", "original_name"): (O("str"), "{0}.originalName", False), ("scaffold", "original_tags"): (O(L("str")), "{0}.originalTags", False),
     ("fastainfo", "length"): ("int", "{0}.length", False),
     ("frag", "key_tuple"): (("tuple", ["str", "int", "int"]), "{0}.keyTuple", False),
     ("namer", "autosome_prefix"): ("str", "{0}.autosome_prefix", False),
@@ -259,6 +261,7 @@ def assigned(stmts):
                 r = root_of(n.func.value)
                 if r:
                     add(r)
+                add("heap_b")
             if isinstance(n, ast.Call) and isinstance(n.func, ast.Name) and n.func.id == "Scaffold":
                 add("heap_sc")
                 add("heap_lo")
@@ -288,13 +291,14 @@ def assigned(stmts):
                     if isinstance(el, ast.Name):
                         add(el.id)
             if isinstance(n, ast.Call) and isinstance(n.func, ast.Attribute) and n.func.attr in (
-                    "pop", "append", "extend", "write", "seek", "read", "discard_start", "discard_end", "add_row", "add", "insert", "truncate", "add_scaffold", "add_header_line"):
+                    "pop", "append", "extend", "write", "seek", "read", "discard_start", "discard_end", "add_row", "add", "insert", "truncate", "add_scaffold", "add_header_line", "append_scaffold"):
                 r = root_of(n.func.value)
                 if r:
                     add(r)
-                if n.func.attr == "add_row":
+                if n.func.attr in ("add_row", "append_scaffold"):
                     add("heap_sc")
                     add("heap_lo")
+                    add("heap_b")
     return out
 
 
@@ -339,6 +343,8 @@ class Kernel:
             return term
         if isinstance(to, tuple) and to[0] == "opt" and isinstance(frm, tuple) and frm[0] == "set" and to[1] == L(frm[1]):
             return f"(some {term})"
+        if frm == O("gap") and to == O("row"):
+            return f"(({term}).map Row.gap)"
         if to == L("row") and frm in (L("gap"), L("frag")):
             return f"(({term}).map Row.{'gap' if frm == L('gap') else 'frag'})"
         raise Unsupported(f"cannot use a value of type {frm} where {to} is expected")
@@ -430,6 +436,12 @@ class Kernel:
                 b, tb = f"(getRes store {b})", "ovres"       # a reference to an OverlapResult: an index into the store
             if tb == "ffref":
                 b, tb = f"(PyRt.getFound heap_ff {b})", "found"   # a reference to a FoundFragment: an index into their arena
+            if tb == "bref":
+                b, tb = f"(PyRt.brefView store heap_lo {b})", "scaffold"      # an element of `self.scaffolds`: an OverlapResult or a left-over Scaffold
+            if tb == "lref" and "heap_lo" in env:
+                b, tb = f"(PyRt.loGet heap_lo {b}).1", "scaffold"
+            if tb == "bsref":
+                b, tb = f"(PyRt.bsGet heap_b {b})", "scaffold"
             tb_k = tb if isinstance(tb, str) else "-"
             key = (tb_k, e.attr.lstrip("_") if (tb_k, e.attr) not in ATTR else e.attr)
             if key not in ATTR:
@@ -791,6 +803,17 @@ class Kernel:
                 binds.append((v, term, rty))
                 return v, rty
             return term, rty
+        if isinstance(f, ast.Attribute) and f.attr == "to_scaffold" and not e.args and isinstance(f.value, ast.Name) and env.get(f.value.id) == "ovref" and "store" in env:
+            nm = self.fresh("ts")
+            binds.append((nm, f"(OverlapResult_to_scaffold (getRes store {mg(f.value.id)}))", "scaffold"))
+            return nm, "scaffold"
+        if dotted(f) == "self.gaps_before_leftover" and len(e.args) == 2 and self.spec.get("build_assembly") and "heap_b" in env:
+            (a, ta), (b, tb) = self.expr(e.args[0], env, binds), self.expr(e.args[1], env, binds)
+            if (ta, tb) != ("bsref", "lref"):
+                raise Unsupported("gaps_before_leftover arguments")
+            nm = self.fresh("gb")
+            binds.append((nm, f"(BuildAssembly_gaps_before_leftover (PyRt.bsGet heap_b {a}) (PyRt.loGet heap_lo {b}).2 self_default_gap)", L("row")))
+            return nm, L("row")
         if dotted(f) == "self.input_predecessor" and len(e.args) == 2 and not e.keywords and self.spec.get("build_assembly"):
             (a, ta), (b, tb) = self.expr(e.args[0], env, binds), self.expr(e.args[1], env, binds)
             nm = self.fresh("ip")
@@ -1081,6 +1104,15 @@ class Kernel:
                 raise Unsupported("sort key arity")
             kf = f"(fun ({mg(v)} : {lean_ty(tx[1])}) => (({ks[0]}, {ks[1]}) : Int × Int))"
             return f"(stableSort (fun a b => PyRt.lexLe2 ({kf} a) ({kf} b)) {xs})", tx
+        if isinstance(f, ast.Name) and f.id == "Scaffold" and len(e.args) == 1 and {k.arg for k in e.keywords} == {"tag", "haplotype", "rank", "original_name", "original_tags"}:
+            nm_, tn = self.expr(e.args[0], env, binds)
+            kw = {k.arg: self.expr(k.value, env, binds) for k in e.keywords}
+            want = {"tag": O("str"), "haplotype": O("str"), "rank": "int", "original_name": O("str"), "original_tags": O(L("str"))}
+            a = {k: self.coerce(t, ty, want[k]) for k, (t, ty) in kw.items()}
+            if tn != "str":
+                raise Unsupported("Scaffold(...) name type")
+            return (f"({{ name := {nm_}, tag := {a['tag']}, haplotype := {a['haplotype']}, rank := {a['rank']}, originalName := {a['original_name']}, "
+                    f"originalTags := {a['original_tags']} }} : Scaffold)"), "scaffold"
         if isinstance(f, ast.Name) and f.id == "Scaffold" and len(e.args) == 2 and {k.arg for k in e.keywords} == {"original_name", "original_tags"}:
             kw = {k.arg: self.expr(k.value, env, binds) for k in e.keywords}
             nm, tn = self.expr(e.args[0], env, binds)
@@ -1144,6 +1176,19 @@ class Kernel:
                 binds.append((nm, "(" + " ".join([lean, "self"] + args) + ")", ("tuple", ["namer", rty])))
                 binds.append(("self", f"{nm}.1", "namer", "let"))
                 return f"{nm}.2", rty
+            if m == "setdefault" and len(e.args) == 2 and isinstance(f.value, ast.Name) and isinstance(env.get(f.value.id), tuple) and env[f.value.id][0] == "dict" \
+                    and env[f.value.id][2] == "bsref" and "heap_b" in env:
+                # d.setdefault(key, Scaffold(...)): the constructor has no side effect, so the new object is allocated only when the key is new
+                d = f.value.id
+                k, tk = self.expr(e.args[0], env, binds)
+                v, tv = self.expr(e.args[1], env, binds)
+                if tv != "scaffold":
+                    raise Unsupported("setdefault default type")
+                nm = self.fresh("sd")
+                binds.append((nm, f"(PyRt.bsSetDefault {mg(d)} heap_b {k} {v})", ("raw", f"({lean_ty(env[d])} × (List Scaffold) × Nat)"), "let"))
+                binds.append((mg(d), f"{nm}.1", env[d], "let"))
+                binds.append(("heap_b", f"{nm}.2.1", L("scaffold"), "let"))
+                return f"{nm}.2.2", "bsref"
             if m == "setdefault" and len(e.args) == 2 and dotted(f.value) and isinstance(f.value, ast.Attribute) and isinstance(f.value.value, ast.Name) \
                     and (env.get(f.value.value.id), f.value.attr) in FIELD:
                 # d.setdefault(k, v) on a dictionary attribute of a root object: the stored value is the result
@@ -1913,6 +1958,27 @@ class Kernel:
                 obj = self.aliases.get(f.value.id, f.value.id)
                 n, tn = self.expr(c.args[0], env, binds)
                 return self.with_binds(binds, [self.let(obj, "bytesio", f"PyRt.BytesIO.seek {mg(obj)} {n}")] + self.block(rest, env, loop))
+            if isinstance(f.value, ast.Name) and env.get(f.value.id) == "bsref" and "heap_b" in env and m == "add_row" and len(c.args) == 1:
+                v, tv = self.expr(c.args[0], env, binds)
+                row = self.coerce_elem(v, tv, "row")
+                r = mg(f.value.id)
+                return self.with_binds(binds, [self.let("heap_b", L("scaffold"), f"PyRt.bsSet heap_b {r} (fun sc => {{ sc with rows := sc.rows ++ [{row}] }})")] + self.block(rest, env, loop))
+            if isinstance(f.value, ast.Name) and env.get(f.value.id) == "bsref" and "heap_b" in env and m == "append_scaffold" and len(c.args) in (1, 2):
+                # a call of the translated kernel Scaffold.append_scaffold on the object the reference points at
+                o, to_ = self.expr(c.args[0], env, binds)
+                if to_ == "lref":
+                    o, to_ = f"(PyRt.loGet heap_lo {o}).1", "scaffold"
+                if to_ != "scaffold":
+                    raise Unsupported("append_scaffold argument")
+                if len(c.args) == 2:
+                    g, tg = self.expr(c.args[1], env, binds)
+                    g = self.coerce(g, tg, O("row"))
+                else:
+                    g = "none"
+                r = mg(f.value.id)
+                nm = self.fresh("ap")
+                binds.append((nm, f"(Scaffold_append_scaffold (PyRt.bsGet heap_b {r}) {o} {g})", "scaffold"))
+                return self.with_binds(binds, [self.let("heap_b", L("scaffold"), f"PyRt.bsSet heap_b {r} (fun _ => {nm})")] + self.block(rest, env, loop))
             if isinstance(f.value, ast.Name) and env.get(f.value.id) == "lref" and m == "add_row" and len(c.args) == 1 and "heap_lo" in env:
                 v, tv = self.expr(c.args[0], env, binds)
                 row = self.coerce_elem(v, tv, "row")
@@ -1994,6 +2060,14 @@ class Kernel:
             a = self.block(list(none_body) + ([] if always_exits(none_body) else rest), env, loop)
             b = self.block(list(some_body) + ([] if (some_body and always_exits(some_body)) else rest), env_some, loop)
             return [f"match {mg(x)} with", "| none =>"] + ind(a) + [f"| some {mg(x)} =>"] + ind(b)
+        if isinstance(test, ast.Call) and isinstance(test.func, ast.Name) and test.func.id == "isinstance" and len(test.args) == 2 \
+                and isinstance(test.args[0], ast.Name) and env.get(test.args[0].id) == "bref" and isinstance(test.args[1], ast.Name) and test.args[1].id == "OverlapResult":
+            x = test.args[0].id
+            env_r, env_l = dict(env), dict(env)
+            env_r[x], env_l[x] = "ovref", "lref"
+            a = self.block(list(s.body) + ([] if always_exits(s.body) else rest), env_r, loop)
+            b = self.block(list(s.orelse) + ([] if (s.orelse and always_exits(s.orelse)) else rest), env_l, loop)
+            return [f"match {mg(x)} with", f"| .res {mg(x)} =>"] + ind(a) + [f"| .lo {mg(x)} =>"] + ind(b)
         if isinstance(test, ast.Name) and (env.get(test.id) == O("str") or (isinstance(env.get(test.id), tuple) and env[test.id][0] == "opt"
                                                                       and isinstance(env[test.id][1], tuple) and env[test.id][1][0] in ("list", "set", "dict"))):
             # `if x:` for a str-or-None (or a collection-or-None): None and the empty value are false; inside the true branch x is definite
@@ -2116,9 +2190,13 @@ class Kernel:
         loopvars = []
         if is_for:
             clash = [n for n in self.for_targets(s) if self.aliases.get(n, n) in env]
-            if clash:
-                # Python keeps a loop variable's last value after the loop; a target that re-uses an existing variable would have to be carried
-                # out of the loop — refuse rather than give it block scope silently
+            if clash and isinstance(s.target, ast.Name):
+                # Python keeps a loop variable's last value after the loop: a target that re-uses an existing variable is an ASSIGNMENT to it at
+                # the start of every pass (and the variable is carried by the loop state)
+                it = s.target.id + "_it"
+                s = ast.For(target=ast.Name(id=it, ctx=ast.Store()), iter=s.iter,
+                            body=[ast.Assign(targets=[ast.Name(id=s.target.id, ctx=ast.Store())], value=ast.Name(id=it, ctx=ast.Load()))] + list(s.body), orelse=[])
+            elif clash:
                 raise Unsupported(f"loop variable(s) {clash} re-use an existing variable")
             src, ts, pat = self.for_source(s, env, binds, env_body)
         names = [self.aliases.get(n, n) for n in assigned(list(s.body))]
@@ -2305,6 +2383,11 @@ def translate(spec):
             k.roots.append(("heap_lo", L(LO_T)))
             env["added_lo"] = L("lref")
             k.roots.append(("added_lo", L("lref")))
+        if spec.get("build_arena"):
+            env["heap_b"] = L("scaffold")
+            k.roots.append(("heap_b", L("scaffold")))
+            env["heap_lo"] = L(LO_T)
+            k.param("heap_lo", L(LO_T))
         if spec.get("found_arena"):
             env["heap_ff"] = L("found")
             k.roots.append(("heap_ff", L("found")))
@@ -2366,9 +2449,9 @@ def translate(spec):
     if k.ret_ty != "unit":
         parts.append(lean_ty(k.ret_ty))
     rty = "Unit" if not parts else " × ".join(parts)
-    sink_inits = [f"  let {mg(n)} : {lean_ty(t)} := {'0' if t == 'int' else '[]'}" for n, t in k.roots if t in ("sink_str", "sink_bytes") or n == "yielded_" or n == "heap_sc" or n in ("heap_lo", "added_lo") or n in spec.get("extra_roots", {}) or n in [p.replace(".", "_") for p in spec.get("init_empty", [])]]
+    sink_inits = [f"  let {mg(n)} : {lean_ty(t)} := {'0' if t == 'int' else '[]'}" for n, t in k.roots if t in ("sink_str", "sink_bytes") or n == "yielded_" or n in ("heap_sc", "heap_b") or (n in ("heap_lo", "added_lo") and spec.get("leftover_arena")) or n in spec.get("extra_roots", {}) or n in [p.replace(".", "_") for p in spec.get("init_empty", [])]]
     # parameter order = the order of the kernel's declaration (params, attr_params, opaque, then newOid): independent of the order of use
-    order = ["fs_exists", "fs_mtime", "fs_open", "store", "nextOid", "heap_ff"] + [p.replace(".", "_") for p in spec.get("dict_roots", {})] + [mg(n) for n in spec.get("params", {})] + [p.replace(".", "_") for p in spec.get("attr_params", {})] \
+    order = ["fs_exists", "fs_mtime", "fs_open", "store", "nextOid", "heap_ff", "heap_lo"] + [p.replace(".", "_") for p in spec.get("dict_roots", {})] + [mg(n) for n in spec.get("params", {})] + [p.replace(".", "_") for p in spec.get("attr_params", {})] \
         + [p.replace(".", "_") for p in spec.get("opaque", {})] + ["newOid"]
     k.params.sort(key=lambda nt: order.index(nt[0]) if nt[0] in order else len(order))
     params = ("(fuel : Nat) " if k.uses_fuel else "") + " ".join(f"({n} : {lean_ty(t)})" for n, t in k.params)
@@ -2383,7 +2466,7 @@ IMP_KERNELS_2 = [
          params={"sub_fragments": L("frag")}, attr_params={"fnd.fragment": "frag"},
          locals={"pairs_with_gaps": L(("tuple", ["frag", "frag", O("int")]))}, messages=["msg"], ignore_locals=["pixels"]),
     dict(file="assembly/scaffold.py", qual="Scaffold.append_scaffold", lean="Scaffold_append_scaffold",
-         params={"self": "scaffold", "othr": "scaffold", "gap": O("gap")}, roots=["self"]),
+         params={"self": "scaffold", "othr": "scaffold", "gap": O("row")}, roots=["self"]),      # `gap`: whatever row object the caller passes (or None)
     dict(file="assembly/overlap_result.py", qual="OverlapResult.to_scaffold", lean="OverlapResult_to_scaffold",
          params={"self": "ovres"}, returns="scaffold"),
     dict(file="assembly/fragment.py", qual="Fragment.reverse", lean="Fragment_reverse", params={"self": "frag"}, returns="frag"),
@@ -2443,7 +2526,7 @@ IMP_KERNELS_5 = [
          params={"scffld": "scaffold", "i": "int"}, locals={"gaps": L("row")}, returns=O(("tuple", ["row", L("row")]))),
     dict(file="assembly/build_assembly.py", qual="BuildAssembly.gaps_before_leftover", lean="BuildAssembly_gaps_before_leftover",
          params={"build_scffld": "scaffold"}, returns=L("row"),
-         attr_params={"scffld.input_predecessor": O(("tuple", ["frag", L("row")])), "self.default_gap": O("gap")}),
+         attr_params={"scffld.input_predecessor": O(("tuple", ["row", L("row")])), "self.default_gap": O("gap")}),   # the stored pair as it is: (row object, gap rows)
 ]
 
 IMP_KERNELS_6 = [
@@ -2562,6 +2645,13 @@ IMP_KERNELS_16 = [
          params={"path": "path", "clobber": "bool", "mode": "str"}),
 ]
 
+BKEY = ("tuple", [O("str"), O("str"), "str"])
+IMP_KERNELS_17 = [
+    dict(file=BA, qual="BuildAssembly.scaffolds_fused_by_name", lean="BuildAssembly_scaffolds_fused_by_name", heap=True, build_arena=True, build_assembly=True,
+         yields="bsref", attr_params={"self.default_gap": O("gap"), "self.scaffolds": L("bref")},
+         locals={"gap": O("row"), "hap_name_scaffold": ("dict", BKEY, "bsref")}),
+]
+
 IMP_KERNELS = [
     dict(file="assembly/indexed_assembly.py", qual="IndexedAssembly.find_overlaps", lean="IndexedAssembly_find_overlaps",
          params={"bait": "frag"}, returns=O("ovres"), locals={"ovr": O("int")},
@@ -2593,7 +2683,7 @@ IMP_KERNELS = [
 def main():
     parts = ["/- GENERATED by harness/translate_imp.py from /repo/src — do not edit -/", "import AgpTpf.Model.PyRt", "import AgpTpf.Model.PyRtHeap", "import AgpTpf.Model.Lookup",
              "import AgpTpf.Model.Fasta", "import AgpTpf.Model.Text", "set_option linter.unusedVariables false", "namespace AgpTpf.Gen.Imp", "open AgpTpf", ""]
-    for spec in IMP_KERNELS + IMP_KERNELS_2 + IMP_KERNELS_3 + IMP_KERNELS_4 + IMP_KERNELS_5 + IMP_KERNELS_6 + IMP_KERNELS_7 + IMP_KERNELS_8 + IMP_KERNELS_9 + IMP_KERNELS_10 + IMP_KERNELS_11 + IMP_KERNELS_12 + IMP_KERNELS_13 + IMP_KERNELS_14 + IMP_KERNELS_15 + IMP_KERNELS_16:
+    for spec in IMP_KERNELS + IMP_KERNELS_2 + IMP_KERNELS_3 + IMP_KERNELS_4 + IMP_KERNELS_5 + IMP_KERNELS_6 + IMP_KERNELS_7 + IMP_KERNELS_8 + IMP_KERNELS_9 + IMP_KERNELS_10 + IMP_KERNELS_11 + IMP_KERNELS_12 + IMP_KERNELS_13 + IMP_KERNELS_14 + IMP_KERNELS_15 + IMP_KERNELS_16 + IMP_KERNELS_17:
         parts.append(translate(spec))
     parts.append("end AgpTpf.Gen.Imp\n")
     txt = "\n".join(parts)
